@@ -98,7 +98,7 @@ def run_shard(sh):
                                "c01", reps={"inject": 3 if q else 10, "simple": 2 if q else 4})
     if st is None: continue
     sh.count("designs"); sh.count("evaluations")
-    for k in ("value_comparisons", "rerun_invocations", "mode_runs", "snapshots"):
+    for k in ("value_comparisons", "rerun_invocations", "mode_runs", "snapshots", "runs_started_with_sim_reset"):
       sh.count(k, st[k])
     sh.count("observed_schedules_total", st["distinct_schedules"])
     if st["distinct_schedules"] >= 2:
